@@ -89,6 +89,11 @@ def random_cases(rng, n, maxlen, start_id):
         x = [rng.randrange(1, nv + 1) for _ in range(ln)]
         mode = rng.choice(["binsize", "nbin"])
         b = rng.choice([1, 2, 3, 5, 7]) if mode == "binsize" else rng.choice([1, 2, 3, 4, 6, 8, 10])
+        if k % 3 == 0 and mode == "binsize":
+            # edge-heavy family: data exactly on bin edges of bin sizes whose reciprocal is inexact
+            b = rng.choice([3, 7, 49, 98, 103, 107, 161, 187, 197])
+            x = [1 + b * rng.randrange(0, 6) + rng.choice([0, 0, 0, 1, b - 1]) for _ in range(ln)]
+            nv = max(x)
         hasmin, hasmax = rng.random() < 0.4, rng.random() < 0.4
         c = {"x": x, "mode": mode, "b": b, "hasmin": hasmin, "min": rng.randrange(0, nv + 2) if hasmin else 0,
              "hasmax": hasmax, "max": rng.randrange(0, nv + 2) if hasmax else 0}
